@@ -1,5 +1,6 @@
 /-
-  val.load <class> <cap> <config> <doc tokens>         (implementation side: harness/ops_valid.cpp)
+  val.load <class> <cap> <config> <doc tokens>         (implementation side: harness/ops_valid.cpp)  policy Skip
+  val.loadt <class> <cap> <config> <doc tokens>        the same load under MismatchedTypesPolicy::ThrowError
     answer: ok <state> | validation <path>=[msg|msg];… [<state>] | err <class>
   val.phone[z|16|32|w] <min> <max> <plus 0|1> <loaded 0|1> <string>     the real PhoneNumber functor on any string
   val.email[z|16|32|w] <loaded 0|1> <string>                            the real Email functor on any string
@@ -28,6 +29,7 @@ def parseValidator (code : String) : Option Validator :=
   | ['C', 'e'] => some (.custom (fun s l => l && odd s) "odd")
   | ['C', 'a'] => some (.custom (fun _ _ => true) "always")
   | ['C', 'u'] => some (.custom (fun _ l => !l) "unloaded")
+  | ['C', 'v'] => some (.custom (fun s _ => odd s) "oddvalue")
   | c :: rest =>
     let (custom, body) := match rest with
       | '!' :: r => (true, String.ofList r)
@@ -61,7 +63,8 @@ def cfgOf (cfg : List (String × List Validator)) (name : String) : List Validat
   | none => []
 
 def flatFields (cfg : List (String × List Validator)) : List LeafField :=
-  [⟨"i", .int, cfgOf cfg "i"⟩, ⟨"s", .str, cfgOf cfg "s"⟩, ⟨"o", .optInt, cfgOf cfg "o"⟩, ⟨"v", .vecInt, cfgOf cfg "v"⟩]
+  [⟨"i", .int, cfgOf cfg "i"⟩, ⟨"s", .str, cfgOf cfg "s"⟩, ⟨"o", .optInt, cfgOf cfg "o"⟩, ⟨"v", .vecInt, cfgOf cfg "v"⟩,
+   ⟨"e", .enm, cfgOf cfg "e"⟩]
 
 def classOf (name : String) (cfg : List (String × List Validator)) : Option (List Field) :=
   match name with
@@ -81,6 +84,7 @@ def leafStr : LeafVal → String
   | .opt none => "-"
   | .opt (some v) => intStr v
   | .vec l => if l.isEmpty then "e" else String.intercalate "." (l.map intStr)
+  | .enm i => toString i
 
 def flatStr (f : FlatVal) : String := String.intercalate ":" (f.map leafStr)
 
@@ -97,7 +101,7 @@ def fieldStr : FieldVal → String
     if l.isEmpty then "-"
     else String.intercalate "," ((l.mergeSort fun a b => bytesLe a.1 b.1).map fun e => hexBytes e.1 ++ "=" ++ flatStr e.2)
 
-/-- flat: i:s:o:v   nested: <flat>;k   vec / map: the single field -/
+/-- flat: i:s:o:v:e   nested: <flat>;k   vec / map: the single field -/
 def stateStr (className : String) (st : List FieldVal) : String :=
   match className with
   | "flat" => String.intercalate ":" (st.map fieldStr)
@@ -152,23 +156,45 @@ def tokOk : Tok → Bool
   | .bool _ => false
   | _ => true
 
+/-- validators the harness can attach to the enum field: Required, Range with a custom message, custom lambdas -/
+def enumValidatorOk : Validator → Bool
+  | .required _ => true
+  | .range _ _ (some _) => true
+  | .custom _ _ => true
+  | _ => false
+
+/-- tokens of the ThrowError op: only what the harness encoder and the generator produce -/
+def tokOkT : Tok → Bool
+  | .bool _ => false
+  | .bin _ => false
+  | .ext _ _ => false
+  | .ts _ _ => false
+  | _ => true
+
+def outcomeStrT (className : String) : OutcomeT → String
+  | .done o => outcomeStr className o
+  | .mismatched => "err mismatched"
+
 def handleLoad (toks : List String) (impl : Option String) : Option (String × String) :=
   match toks with
-  | ["val.load", className, capS, cfgS, docS] => do
+  | [op, className, capS, cfgS, docS] => do
+    let throwError ← if op == "val.load" then some false else if op == "val.loadt" then some true else none
     let cap ← capS.toNat?
     let cfg ← parseConfig cfgS
+    if !(cfgOf cfg "e").all enumValidatorOk then none
     let cls ← classOf className cfg
     let toks ← (docS.splitOn ",").mapM Scope.parseTok
-    if !toks.all tokOk then none
+    if !toks.all (if throwError then tokOkT else tokOk) then none
     let vals ← parseDoc toks
     let doc ← match vals with | [v] => some v | _ => none
     if !docOk doc then none
-    let out := loadClass cap cls doc
-    let ans := outcomeStr className out
+    let ans := if throwError then outcomeStrT className (loadClassT cap cls doc) else outcomeStr className (loadClass cap cls doc)
     let v := match impl with
       | some i =>
         match parseAnswer i with
-        | some a => Spec.judge (stateStr className) canonMsg cap cls doc a
+        | some a =>
+          if throwError then Spec.judgeT (stateStr className) canonMsg cap cls doc a
+          else Spec.judge (stateStr className) canonMsg cap cls doc a
         | none => "bad:unparsable_or_abnormal_answer"
       | none => "nospec"
     pure (ans, v)
@@ -234,6 +260,7 @@ def handleText (toks : List String) (impl : Option String) : Option (String × S
 def handle (toks : List String) (impl : Option String) : Option (String × String) :=
   match toks with
   | "val.load" :: _ => handleLoad toks impl
+  | "val.loadt" :: _ => handleLoad toks impl
   | _ => handleText toks impl
 
 
